@@ -42,10 +42,13 @@ func VfC18RoundTrip() {
 			}
 		}
 		vf.Assert(s.SaveRouter(r) == nil, "save-router-failed")
+		vf.Assert(s.routers[r.Address.IP] == r, "saved-router-not-stored")
 	}
 	names := []string{"a.myco", "b.myco"}
 	for i := 0; i < M; i++ {
-		vf.Assert(s.SaveMapping(names[vf.Choose(2)], vfAddr18()) == nil, "save-mapping-failed")
+		mn, ma := names[vf.Choose(2)], vfAddr18()
+		vf.Assert(s.SaveMapping(mn, ma) == nil, "save-mapping-failed")
+		vf.Assert(s.mappings[mn].Router == ma && s.mappings[mn].Domain == mn, "saved-mapping-not-stored")
 	}
 	switch vf.Choose(3) {
 	case 1:
